@@ -1,4 +1,4 @@
-use crate::sync::{Mutex, MutexGuard, RwLock};
+use crate::sync::{Mutex, MutexGuard, PoisonError, RwLock, RwLockReadGuard};
 use crate::tree_store::page_store::base::PageHint;
 use crate::tree_store::page_store::lru_cache::LRUCache;
 use crate::{CacheStats, DatabaseError, Result, StorageBackend, StorageError};
@@ -124,6 +124,11 @@ struct CheckedBackend {
     file: Box<dyn StorageBackend>,
     io_failed: AtomicBool,
     closed: AtomicBool,
+    // Held shared around every call into the backend and exclusively by close(), so that a call
+    // which has already passed check_failure() on another thread -- a read transaction can
+    // outlive the Database -- finishes before the backend is closed, instead of reaching it
+    // after close()
+    in_flight: RwLock<()>,
 }
 
 // Covers the open paths that fail before there is a Database to drop. Drop cannot report the
@@ -142,7 +147,19 @@ impl CheckedBackend {
             file,
             io_failed: AtomicBool::new(false),
             closed: AtomicBool::new(false),
+            in_flight: RwLock::new(()),
         }
+    }
+
+    // Checks that the backend is still usable, and keeps close() out until the returned guard
+    // is dropped. The lock protects no data, so a poisoned one is as good as a clean one.
+    fn begin_call(&self) -> Result<RwLockReadGuard<'_, ()>> {
+        let guard = self
+            .in_flight
+            .read()
+            .unwrap_or_else(PoisonError::into_inner);
+        self.check_failure()?;
+        Ok(guard)
     }
 
     fn check_failure(&self) -> Result<()> {
@@ -160,13 +177,18 @@ impl CheckedBackend {
     fn close(&self) -> Result {
         self.closed.store(true, Ordering::Release);
         self.io_failed.store(true, Ordering::Release);
+        // Calls that got in before the flags were set have to finish first
+        let _no_calls = self
+            .in_flight
+            .write()
+            .unwrap_or_else(PoisonError::into_inner);
         self.file.close()?;
 
         Ok(())
     }
 
     fn len(&self) -> Result<u64> {
-        self.check_failure()?;
+        let _in_flight = self.begin_call()?;
         let result = self.file.len();
         if result.is_err() {
             self.io_failed.store(true, Ordering::Release);
@@ -175,7 +197,7 @@ impl CheckedBackend {
     }
 
     fn read(&self, offset: u64, out: &mut [u8]) -> Result<()> {
-        self.check_failure()?;
+        let _in_flight = self.begin_call()?;
         #[cfg(redb_verif)]
         crate::verif_types::pause("backend.read");
         let result = self.file.read(offset, out);
@@ -186,7 +208,7 @@ impl CheckedBackend {
     }
 
     fn set_len(&self, len: u64) -> Result<()> {
-        self.check_failure()?;
+        let _in_flight = self.begin_call()?;
         let result = self.file.set_len(len);
         if result.is_err() {
             self.io_failed.store(true, Ordering::Release);
@@ -195,7 +217,7 @@ impl CheckedBackend {
     }
 
     fn sync_data(&self) -> Result<()> {
-        self.check_failure()?;
+        let _in_flight = self.begin_call()?;
         let result = self.file.sync_data();
         if result.is_err() {
             self.io_failed.store(true, Ordering::Release);
@@ -204,7 +226,7 @@ impl CheckedBackend {
     }
 
     fn write(&self, offset: u64, data: &[u8]) -> Result<()> {
-        self.check_failure()?;
+        let _in_flight = self.begin_call()?;
         #[cfg(redb_verif)]
         crate::verif_types::pause("backend.write");
         let result = self.file.write(offset, data);
@@ -218,7 +240,7 @@ impl CheckedBackend {
     // optimization depends on, latching would turn every later operation into a PreviousIo error
     // over data that nothing was waiting on.
     fn write_best_effort(&self, offset: u64, data: &[u8]) -> Result<()> {
-        self.check_failure()?;
+        let _in_flight = self.begin_call()?;
         self.file.write(offset, data).map_err(StorageError::from)
     }
 }
